@@ -61,6 +61,21 @@ ENUMS = ["SortingClass.Ores", "SortingClass.Ices", "SorterInstruction.FilterPref
          "SlotClass.Battery", "GasType.Oxygen"]
 
 
+# {0}..{6}: names given at generation time
+STRUCT_FUNCS = [
+    "def {0}():\n    return {{1: 16, 2: 32, 3: 48}}\n",
+    "def {1}(t, n):\n    return t.get(n, 0) << 8 | n\n",
+    "def {2}(a):\n    return (a, a + 1)\n",
+    "def {3}(p):\n    return 7 if isinstance(p, tuple) else -7\n",
+    "def {4}(kind):\n    return SortingClass.Ores if kind == 'ore' else SortingClass.Ices\n",
+    "def {5}(c):\n    return (HASH(c.name) & 65535) | int(c) << 16\n",
+    "def {6}(p, k=0):\n    return p[0] * 100 + p[1] + k + (5 if p == (p[0], p[1]) else 0)\n",
+]
+# (index of the outer function, call text)
+STRUCT_CALLS = [(1, "{1}({0}(), 2)"), (1, "{1}(t={0}(), n=3)"), (3, "{3}({2}(4))"), (5, "{5}({4}('ore'))"), (5, "{5}({4}('ice'))"),
+                (6, "{6}({2}(3), k=2)"), (6, "{6}({2}(1))"), (6, "{6}((2, 3))")]
+
+
 @st.composite
 def function_def(draw, name, earlier, in_lib=False):
     """-> (source text, signature info)"""
@@ -179,6 +194,19 @@ def cases(draw):
         ct, nd = draw(call_text(info, "cl." if use_lib else ""))
         pos = draw(st.integers(0, 6))
         calls.append({"text": ct, "func": info["name"], "nondefault": nd, "pos": pos, "lib": use_lib})
+    if where == "main" and draw(st.integers(0, 2)) == 0:
+        # constexpr calls nested as arguments of constexpr calls, the inner one returning something that is not a
+        # scalar (a dict with integer keys, a tuple, an enum member): under ordinary Python evaluation the outer
+        # function receives that very object
+        base = len(funcs)
+        names = [f"cx{base + j}" for j in range(len(STRUCT_FUNCS))]
+        for j, body in enumerate(STRUCT_FUNCS):
+            src = body.format(*names)
+            funcs.append(src)
+            infos.append({"name": names[j], "params": [], "kinds": [], "defaults": {}, "shape": {"branch": True, "loop": False}, "call_int": "0"})
+        for _ in range(draw(st.integers(1, 3))):
+            outer, text = draw(st.sampled_from(STRUCT_CALLS))
+            calls.append({"text": text.format(*names), "func": names[outer], "nondefault": True, "pos": draw(st.integers(0, 6)), "lib": False, "nested": True})
     case = {"funcs": funcs, "infos": [{k: v for k, v in i.items()} for i in infos], "calls": calls, "in_lib": in_lib,
             "lib_funcs": lib_funcs, "lib_infos": [{k: v for k, v in i.items()} for i in lib_infos],
             "opts": draw(st.sampled_from([{}, {"inline_functions": False}, {"compact": True, "remove_labels": True}]))}
@@ -341,6 +369,8 @@ def check_one_program(case, stats=None, K=30):
         for c, v in zip(case["calls"], exp):
             info = next(i for i in (case["lib_infos"] if case.get("lib_funcs") and c.get("lib") else case["infos"]) if i["name"] == c["func"])
             stats.classes["position=%d" % c["pos"]] += 1
+            if c.get("nested"):
+                stats.classes["constexpr-call-nested-as-argument(non-scalar inner result)"] += 1
             stats.classes["result:" + type(v).__name__] += 1
             if (info["shape"]["branch"] or info["shape"]["loop"]) and c["nondefault"]:
                 stats.nontrivial.add(sha([case["funcs"], c["text"]])[:16])
